@@ -88,6 +88,18 @@ where
         let mut o = self.dst.write_buf()?;
         let (input, tags) = self.src.read_buf()?;
         let n = std::cmp::min(input.len(), o.len());
+        if n == 0 {
+            // E.g. the delay exactly filled up the output. Committing zero
+            // samples together with the input's tags trips a debug assertion.
+            let full = o.is_empty();
+            drop(o);
+            drop(input);
+            return Ok(if full {
+                BlockRet::WaitForStream(&self.dst, 1)
+            } else {
+                BlockRet::WaitForStream(&self.src, 1)
+            });
+        }
         o.fill_from_slice(&input.slice()[..n]);
         o.produce(n, &tags);
         input.consume(n);
